@@ -9,6 +9,13 @@ KF = {
     "digit_div": {"KF_DIGIT_DIV_POW2_REMHI": None},
     "export_le_bin": {"KF_EXPORT_LE_BIN_TRUNC": None},
     "import_be_hex": {"KF_IMPORT_BE_HEX_ODD": None},
+    "addsub_digit": {"KF_ADDSUB_DIGIT_ZERO_CARRY": None},
+    "mult_digit": {"KF_MULT_DIGIT_23_CARRY": None},
+    "shift": {"KF_SHIFT_BEYOND": None},
+    "and": {"KF_AND_STALE_HIGH": None},
+    "is_bit_set": {"KF_IS_BIT_SET_ZERO": None},
+    "assign_digit": {"KF_ASSIGN_DIGIT_ZERO": None},
+    "clz": {"KF_CLZ_ZERO": None},
 }
 if os.environ.get("C01_NO_KF"):
     KF = {k: {} for k in KF}
@@ -198,5 +205,82 @@ def impexp_jobs(tier):
     return out
 
 
+# ------------------------------------------------------------------ layer 3: bn_* wrappers
+def wrap_jobs(tier):
+    out = []
+    full = (tier == "thorough")
+    for w in WIDTHS:
+        base, t = cfg(w, 1), tag(w, 1)
+        maxc = min(4, 128 // w)
+        def Wj(op, ca, da, cb=None, db=0, extra=None, desc="", kf=None, uw=None, suffix="", **kw):
+            d = dict(base, CA=ca, DA=da)
+            nm = "wrap-%s%s-%s-c%dd%d" % (op[2:].lower(), suffix, t, ca, da)
+            shape = "digit width %d, bn: capacity %d / %d significant digits" % (w, ca, da)
+            if cb is not None:
+                d.update(CB=cb, DB=db)
+                nm += "-c%dd%d" % (cb, db)
+                shape += ", n: capacity %d / %d digits" % (cb, db)
+            d[op] = None
+            for k, v in (extra or {}).items():
+                d[k] = v
+            for k in (kf or []):
+                d.update(KF[k])
+            return J(nm, "wrap.c", d, uw or 8, shape + "; all digit values incl. stale digits above `digits`", desc,
+                     unwindset=memset_uw(w), **kw)
+        # shapes
+        if w == 8 and full:
+            pairs = [(ca, da, cb, db) for ca in range(1, 5) for da in range(0, ca + 1) for cb in sorted(set([ca, 4, 1])) for db in range(0, cb + 1)]
+        elif w == 8:
+            pairs = [(3, 2, 3, 2), (3, 2, 3, 3), (3, 3, 3, 1), (2, 2, 3, 3), (3, 0, 3, 2), (3, 2, 3, 0), (3, 0, 3, 0), (4, 4, 4, 4), (1, 1, 1, 1)]
+        else:
+            pairs = [(2, 1, 2, 2), (2, 2, 2, 1), (2, 2, 2, 2), (1, 1, 2, 2), (2, 0, 2, 1)]
+            if full and maxc >= 4:
+                pairs += [(4, 3, 4, 4), (4, 4, 4, 2), (3, 3, 4, 1)]
+        for ca, da, cb, db in pairs:
+            for nc in (0, 1):
+                x = {"NOCARRY": None} if nc else {}
+                sfx = "-nocarry" if nc else ""
+                if nc and not (full or (ca, da, cb, db) in pairs[:3]):
+                    continue
+                out.append(Wj("O_ADD", ca, da, cb, db, x, "bn_add: (bn+n) mod 2^cap, carry, invariant; EOVERFLOW if n has more digits than the capacity", suffix=sfx))
+                out.append(Wj("O_SUB", ca, da, cb, db, x, "bn_sub: (bn-n) mod 2^cap, borrow, invariant; EOVERFLOW if n has more digits than the capacity", suffix=sfx))
+            for lop, ln in ((0, "and"), (1, "or"), (2, "xor")):
+                if lop == 0 and KF["and"] and da > db + 1:
+                    continue
+                out.append(Wj("O_LOGIC", ca, da, cb, db, {"LOP": lop}, "bn_%s: exact value, invariant%s" % (ln, "" if lop == 0 else "; EOVERFLOW if n has more digits than the capacity"),
+                              suffix="-" + ln, kf=["and"] if lop == 0 else None))
+            out.append(Wj("O_CMP", ca, da, cb, db, None, "bn_cmp/is_equal/is_zero/is_one/is_even/is_odd/calc_bits/ctz/clz/is_pow2/calc_digits", kf=["clz"], uw=ca * w + 2))
+            out.append(Wj("O_ASSIGN", ca, da, cb, db, None, "bn_assign (EOVERFLOW if too many digits), bn_assign_init, bn_assign_zero, bn_assign_digit", kf=["assign_digit"]))
+        singles = sorted(set((ca, da) for ca, da, _, _ in pairs))
+        for ca, da in singles:
+            out.append(Wj("O_ADD", ca, da, None, 0, {"ALIAS": None}, "bn_add(bn, bn): doubling with carry", suffix="-alias"))
+            out.append(Wj("O_SUB", ca, da, None, 0, {"ALIAS": None}, "bn_sub(bn, bn): zero, no borrow", suffix="-alias"))
+            out.append(Wj("O_CMP", ca, da, None, 0, {"ALIAS": None}, "predicates with n == bn", suffix="-alias", kf=["clz"], uw=ca * w + 2))
+            out.append(Wj("O_ADDD", ca, da, None, 0, None, "bn_add_digit: (bn+d) mod 2^cap, carry written, invariant", kf=["addsub_digit"]))
+            out.append(Wj("O_SUBD", ca, da, None, 0, None, "bn_sub_digit: (bn-d) mod 2^cap, borrow written, invariant", kf=["addsub_digit"]))
+            mb = ca * w + w + 9
+            out.append(Wj("O_LSH", ca, da, None, 0, {"MAXBITS": mb}, "bn_l_shift for every shift count <= capacity + one digit + 9 bits: (bn<<bits) mod 2^cap", kf=["shift"], cost=5))
+            out.append(Wj("O_RSH", ca, da, None, 0, {"MAXBITS": mb}, "bn_r_shift for every shift count <= capacity + one digit + 9 bits: bn>>bits", kf=["shift"], cost=5))
+            out.append(Wj("O_BIT", ca, da, min(ca, 2), 1, {"MAXBITS": mb}, "bn_is_bit_set, bn_bit_set (EOVERFLOW outside capacity), bn_assign_2exp, is_pow2/ctz/calc_bits of 2^k", kf=["is_bit_set"], cost=5))
+            # multiply by a digit: uninterpreted digit multiply for the general path, exact paths for 0,1,2,3,2^k
+            out.append(Wj("O_MULD", ca, da, None, 0, {"STUB_bn_digit_mult__int": None}, "bn_mult_digit: bn*d exact or EOVERFLOW; digit multiply uninterpreted", kf=["mult_digit"], suffix="-uf", cost=8))
+        out.append(Wj("O_INIT", 1, 0, None, 0, None, "bn_init: EINVAL for 0 / > BN_BIT_LEN bits, else count = ceil(bits/W)"))
+        # bn_mult / bn_square: uninterpreted digit multiply at every shape; real compiler multiply at small shapes
+        mshapes = [(ca, da, db) for ca in range(1, maxc + 1) for da in range(0, ca + 1) for db in range(0, ca + 1)]
+        if not full:
+            mshapes = [m for m in mshapes if m in ((2, 1, 1), (3, 2, 1), (4, 2, 2), (2, 2, 1), (2, 0, 1), (3, 1, 2), (4, 3, 1), (4, 1, 3))]
+        for ca, da, db in mshapes:
+            out.append(Wj("O_MULT", ca, da, ca, db, {"STUB_bn_digit_mult__int": None}, "bn_mult: bn*n == sum of digit products, or EOVERFLOW iff digits(bn)+digits(n) > cap; digit multiply uninterpreted", suffix="-uf", cost=da * db + 1))
+            if da + da <= ca + 1 and db == da:
+                out.append(Wj("O_MULT", ca, da, None, 0, {"STUB_bn_digit_mult__int": None, "ALIAS": None}, "bn_mult(bn, bn): square, digit multiply uninterpreted", suffix="-uf-sq", cost=da * da + 1))
+        if w <= 16 or full:
+            for ca, da, db in ((2, 1, 1), (3, 2, 1)):
+                if ca > maxc:
+                    continue
+                out.append(Wj("O_MULT", ca, da, ca, db, None, "bn_mult with the compiler's double-width multiply: bn*n == sum of digit products", suffix="-cc", cost=6))
+            out.append(Wj("O_MULT", 2, 1, None, 0, {"ALIAS": None, "SQUARE_FN": None}, "bn_square with the compiler's double-width multiply", suffix="-cc-sq"))
+    return out
+
+
 def jobs(tier):
-    return digit_jobs(tier) + kern_jobs(tier) + impexp_jobs(tier)
+    return digit_jobs(tier) + kern_jobs(tier) + impexp_jobs(tier) + wrap_jobs(tier)
